@@ -52,6 +52,8 @@ def run(ctx):
         stride = 257 if ctx.quick else 31
         for off in (rng.sample(range(stride), 6) if ctx.quick else range(stride)):
             shared.append(f"prop.c20edw {cname} {rng.randrange(3, 2 ** 200)} {rng.randrange(3, 2 ** 200)} {stride} {off}")
+        # the shared public point: few source lines, every one of them a preemption point
+        shared.append(f"prop.c20edw {cname} {rng.randrange(3, 2 ** 200)} {rng.randrange(3, 2 ** 200)} -1 0")
     res = ctx.check_props(shared, "prop.c20shared")
     pts = sum(int(r.split()[1]) for r in res if r.startswith("ok "))
     ctx.count("shared-object preemption points", pts)
